@@ -296,11 +296,13 @@ def thr_check(name, case, rec):
 # ---------------------------------------------------------------------------------------------------------------
 # expression API == array form
 # ---------------------------------------------------------------------------------------------------------------
-EXPR = ["bilinear-gg", "bilinear-sym", "linear-g", "linear-v", "mixed-bilinear", "mixed-linear", "bilinear-vv", "planestrain-gg"]
+EXPR = ["bilinear-gg", "bilinear-sym", "linear-g", "linear-v", "mixed-bilinear", "mixed-linear", "bilinear-vv", "planestrain-gg", "bilinear-hh"]
 
 
 def ex_strategy(name, tier):
     kinds = ["quad", "triangle", "quad8"] if name.startswith("planestrain") else ["hexahedron", "tetra", "quad", "triangle6"]
+    if name == "bilinear-hh":
+        kinds = ["hexahedron", "quad"]  # element families with second derivatives
     if name.startswith("mixed"):
         kinds = ["hexahedron", "quad", "triangle6", "tetra10"]  # FieldsMixed defines no dual region for linear simplices
     return st.fixed_dictionaries({"mesh": st.sampled_from(kinds).flatmap(lambda k: gm.st_mesh(k, tier, max_n=3, curved=False)),
@@ -341,6 +343,35 @@ def ex_check(name, case, rec):
 
         K = fem.IntegralForm([A], fc, region.dV, fc).assemble()
         cmp(name + ("(sym=True)" if use_sym else ""), wf.assemble(fc, fc, parallel=par, sym=use_sym), K)
+    elif name == "bilinear-hh":
+        # second gradients of the basis (regions created with hess=True): a(v, u) = w hess(v) ::: hess(u), against the explicit
+        # sum over cells, quadrature points and shape functions built from the region's d2h/dXdX
+        from felupe.math import dddot, hess
+
+        if case["mesh"]["kind"] not in ("hexahedron", "quad"):
+            rec.reject("no second derivatives for this element family")
+            return
+        region = gm.region(mesh, info, hess=True)
+        fc = fem.FieldContainer([fem.Field(region, dim=dim)])
+        w = rng.uniform(0.5, 1.5, (nq, nc))
+
+        @fem.Form(v=fc, u=fc, kwargs={"w": w})
+        def wf():
+            return [lambda v, u, w: w * dddot(hess(v), hess(u))]
+
+        H = np.asarray(region.d2hdXdX)  # (a, I, J, q, c)
+        Hc = np.broadcast_to(H, H.shape[:3] + (nq, nc))
+        kab = np.einsum("aIJqc,bIJqc,qc,qc->abc", Hc, Hc, w, np.broadcast_to(region.dV, (nq, nc)))
+        n = mesh.npoints * dim
+        K = np.zeros((n, n))
+        cells = np.asarray(mesh.cells)
+        for c_ in range(nc):
+            for a_ in range(cells.shape[1]):
+                for b_ in range(cells.shape[1]):
+                    for i_ in range(dim):
+                        K[cells[c_, a_] * dim + i_, cells[c_, b_] * dim + i_] += kab[a_, b_, c_]
+        got = np.asarray(wf.assemble(fc, fc, parallel=par, sym=sym).toarray())
+        rec.close("bilinear-hh" + ("(sym=True)" if sym else ""), float(np.abs(got - K).max()) / max(float(np.abs(K).max()), 1e-300) if got.shape == K.shape else float("inf"), 1e-11)
     elif name == "bilinear-vv":
         fc = fem.FieldContainer([fem.Field(region, dim=dim)])
         M = rng.standard_normal((dim, dim, nq, nc))
